@@ -18,19 +18,19 @@ import (
 )
 
 type HarnessSpec struct {
-	Entry    string            `json:"entry"`
-	Pkg      string            `json:"pkg"`
-	Native   bool              `json:"native"`
-	Reach    []string          `json:"reach"`
-	Unwind   int               `json:"unwind"`
-	Quick    map[string]int    `json:"quick"`
-	Thorough map[string]int    `json:"thorough"`
-	OnlyTier string            `json:"only_tier"`
-	MaxSteps int               `json:"max_steps"`
-	Solver   string            `json:"solver"`
-	Stubs    map[string]string `json:"stubs"` // target function -> harness function (pkg-relative "pkg.Func")
-	Note     string            `json:"note"`
-	Witnesses int              `json:"witnesses"` // >0: replay up to this many complete paths natively (all of them in order)
+	Entry     string            `json:"entry"`
+	Pkg       string            `json:"pkg"`
+	Native    bool              `json:"native"`
+	Reach     []string          `json:"reach"`
+	Unwind    int               `json:"unwind"`
+	Quick     map[string]int    `json:"quick"`
+	Thorough  map[string]int    `json:"thorough"`
+	OnlyTier  string            `json:"only_tier"`
+	MaxSteps  int               `json:"max_steps"`
+	Solver    string            `json:"solver"`
+	Stubs     map[string]string `json:"stubs"` // target function -> harness function (pkg-relative "pkg.Func")
+	Note      string            `json:"note"`
+	Witnesses int               `json:"witnesses"` // >0: replay up to this many complete paths natively (all of them in order)
 }
 
 type Spec struct {
@@ -190,6 +190,27 @@ func cmdCheck(args []string) int {
 	var witnesses []witnessRec
 	if len(spec.Harnesses) > 0 {
 		P, err := LoadProgram(rd, ov, patterns)
+		// a harness file that no longer compiles against the tree (it calls an internal function whose
+		// signature changed, say) is dropped - its harnesses end as inconclusive - and the others still run
+		for try := 0; err != nil && try < 4; try++ {
+			le, ok := err.(*LoadError)
+			if !ok {
+				break
+			}
+			dropped := 0
+			for _, f := range le.Files {
+				if _, isOv := ov[f]; isOv && !strings.Contains(ov[f], "/harness/common/") && !strings.Contains(ov[f], "kit/") {
+					fmt.Printf("INCONCLUSIVE property=%s reason=harness-file-dropped:%s (does not compile against the tree)\n", id, strings.TrimPrefix(ov[f], vd+"/"))
+					inconclusive = append(inconclusive, "harness-file-dropped:"+strings.TrimPrefix(ov[f], vd+"/"))
+					delete(ov, f)
+					dropped++
+				}
+			}
+			if dropped == 0 {
+				break
+			}
+			P, err = LoadProgram(rd, ov, patterns)
+		}
 		if err != nil {
 			// a tree the harness no longer compiles against is inconclusive, not a violation
 			fmt.Printf("INCONCLUSIVE property=%s reason=load-failed: %v\n", id, err)
